@@ -44,12 +44,47 @@ through mpmath, 60 digits) and handed to TLC as booleans:
     factor 2 covers the fluctuation of the estimate; the true transmission is invariant, so the two
     errors add.  (The points of the moved cylinder are NOT the moved points: the code rotates the disk
     rule by the shortest rotation from z to the axis, so the rule's azimuth about the axis differs.)
+
+Hardening round (HARDENING.md; everything below stays inside the property's quantifier):
+  * presentation (items 1, 2, 3, 7): the property is about configurations, not about how they are handed
+    over.  Every batch of rays is given to beam_intersection in one of the layouts of
+    CylinderDefs!RayLayouts (0-d operands, lists, reversed lists, 0-d start x list of directions, list of
+    starts x 0-d direction, starts x directions broadcast to a grid, the same grid as transposed =
+    non-contiguous 2-d operands); radius and height are float64, float32 or int64 whenever the number is
+    the same in that type (SizeTypes).  The oracle does not know the layout.
+  * thresholds and scales (item 4): cylinders with aspect ratios up to 1e6 (radius and height still within
+    1e-3..1e3) with rays nearly parallel to the axis (long cylinders) / nearly perpendicular to it (flat
+    ones), tilted by 1e-1 .. 1e-6 so that the ray leaves through the lateral surface (the caps) although it
+    is "almost" parallel (perpendicular); axes 1e-3 .. 1e-9 rad away from +z and -z for the quadrature.
+    For the tilted rays the tolerance is derived, not 1e-12: with theta = |n x a|, phi = |n . a| the float
+    cross / dot product of two unit vectors has absolute error <= 3 eps, i.e. relative error 3 eps/theta
+    (3 eps/phi), and b.(n x a), b.a have absolute error <= 6 eps |b| while geometry bounds their size by
+    r theta resp. h; every term of the chord formula therefore carries a relative error of at most
+    c eps (1 + |b|/min(r,h)) (1/theta + 1/phi); we allow 64 eps (...) + 1e-12 (measured on the pristine
+    tree while writing this: <= 2 % of the bound) and generate a case only if the bound is <= 1e-2.
+  * mixed units (item 5): the moved / re-described copy of a transmission set-up is handed over in ANOTHER
+    length unit than the original (CylinderDefs!ScaleCyl: same configuration, TLC confirms in
+    Cases_Cylinder that membership is unchanged and lengths scale), with the SAME material object, the
+    wavelengths in another unit and another order, the detectors as a 2-d array in yet another unit.
+  * second use (item 6): a third of the quadrature calls is the second call on a Cylinder object that has
+    already been used; at the end of the run a sample of all cases is evaluated again, in another order and
+    layout, and judged again (events with pass = 2; Trace_Cylinder checks that they are the same cases).
+  * an absolute bar for the line rule of 'medium' / 'expensive' (the seeded change that cached the Gauss nodes and
+    rescaled them in place is invisible to the metamorphic transmission relations once the drifting weights
+    have converged, and the moments with c <= 1 never see it): z^2 and z^4 moments within three times the
+    error of the DOCUMENTED rule at its smallest node count (lib_absorption.axial_tol, computed from the
+    formula with mpmath, never from the code: 5.3 % / 2.1 % for z^2).
+  * self-tests (item 11): the corrupted events of the trace control are derived from synthetic events that
+    are built from the model cases and the oracle, never from what the implementation returned; violations
+    are reported before the control runs.
 """
 
 from __future__ import annotations
 
+import copy
 import json
 import os
+import threading
 import time
 from fractions import Fraction as F
 
@@ -70,6 +105,10 @@ UNITS = ('mm', 'm', 'cm', 'um', 'angstrom')
 # scale = length of one lattice unit in the chosen unit (exact rationals; the first three are powers of two)
 SCALES = (F(1), F(1, 1024), F(64), F(1, 1000), F(37, 100), F(1000, 7), F(3, 2000))
 WORKERS = int(os.environ.get('VERIF_TLC_WORKERS', '16'))  # developers on a shared machine may lower this
+LAYOUTS = ('1d', '1d_reversed', '0d', 'start0d', 'dir0d', '2d', '2d_transposed')   # = CylinderDefs!RayLayouts
+EPS = 2.0 ** -52
+PLACEHOLDER = {'m': [[1, 0, 0], [0, 1, 0], [0, 0, 1]], 'k': 1, 'b': [0, 0, 0, 1], 'r': 1, 'h': 1}
+SECOND = ' [second evaluation of the same case, after other calls]'
 
 
 def _fl(v):
@@ -80,15 +119,34 @@ def _zc(c):
     return 'axis z<0' if c.axis[2] < 0 else 'axis z>=0'
 
 
-def _sc_cylinder(c, u, unit):
+def _size_types(c, u):
+    """Number types in which radius and height are the SAME numbers as the float64 handed over so far."""
+    out = ['float64']
+    vals = (float(c.r * u), float(c.h * u))
+    if all(float(np.float32(v)) == v for v in vals):
+        out.append('float32')
+    if all(v.is_integer() and abs(v) < 2 ** 53 for v in vals):
+        out.append('int64')
+    return out
+
+
+def _sc_cylinder(c, u, unit, sizes='float64'):
     import scipp as sc
     from scippneutron.absorption import Cylinder
+
+    def size(x):
+        v = float(x * u)
+        if sizes == 'int64':
+            return sc.scalar(int(v), unit=unit, dtype='int64')
+        if sizes == 'float32':
+            return sc.scalar(v, unit=unit, dtype='float32')
+        return sc.scalar(v, unit=unit)
 
     return Cylinder(
         sc.vector(_fl(c.axis)),
         sc.vector(_fl(L.scale(u, c.base)), unit=unit),
-        sc.scalar(float(c.r * u), unit=unit),
-        sc.scalar(float(c.h * u), unit=unit),
+        size(c.r),
+        size(c.h),
     )
 
 
@@ -99,6 +157,12 @@ def _pick_scale(rng, c, pow2=False):
         if F(1, 1000) <= c.r * u <= 1000 and F(1, 1000) <= c.h * u <= 1000:
             return u, rng.choice(UNITS)
     return F(1), 'mm'
+
+
+def _pick_sizes(rng, c, u):
+    """float64 most of the time; another admissible number type otherwise."""
+    types = _size_types(c, u)
+    return rng.choice(types) if rng.random() < 0.4 else 'float64'
 
 
 # ------------------------------------------------------------------------------------------------ rays
@@ -120,46 +184,177 @@ def _well_conditioned(res, size):
     return dr == 0 or abs(dr) >= F(1, 64)
 
 
-def _run_rays(ctx, c, rays, u, unit, what):
-    """rays: list of (s, n, res) with res = c.chord(s, n).  Returns per-ray dicts (zero, len_ok, raised)."""
+class _Malformed(Exception):
+    """The implementation returned something that is not an array of lengths over the dims of its operands."""
+
+
+def _beam_lengths(cyl, rays, u, unit, layout):
+    """Path lengths (floats, in `unit`) of `rays` = [(s, n, ...)] in the order given, obtained through the
+    stated layout of operands.  Raises whatever the implementation raises; _Malformed on malformed results."""
     import scipp as sc
 
-    out = []
-    try:
-        cyl = _sc_cylinder(c, u, unit)
-        got = cyl.beam_intersection(
-            sc.vectors(dims=['ray'], values=np.array([_fl(L.scale(u, s)) for s, _, _ in rays]), unit=unit),
-            sc.vectors(dims=['ray'], values=np.array([_fl(n) for _, n, _ in rays])),
-        )
-        vals = got.to(unit=unit, copy=False).values
-        if vals.shape != (len(rays),):
-            raise ValueError(f'shape {vals.shape}')
-    except Exception as e:  # noqa: BLE001
-        ctx.violation(f'beam_intersection raised {type(e).__name__} ({what})',
-                      {'cyl': L.cyl_ints(c), 'unit': unit, 'scale': str(u), 'exc': repr(e)[:300]})
-        return [{'raised': True, 'zero': False, 'len_ok': False, 'got': None} for _ in rays]
-    size = float(c.size * u)
-    for (s, n, res), g in zip(rays, vals, strict=True):
-        g = float(g)
-        want = res['length'] * L.mp(u)
-        if res['cls'] == 'tangent' and not _exact_arith(c, n, u):
-            atol = 1e-6 * size
-        else:
-            atol = 1e-12 * size
-        ok = np.isfinite(g) and abs(mpmath.mpf(g) - want) <= mpmath.mpf(1e-12) * want + atol
-        out.append({'raised': False, 'zero': bool(np.isfinite(g) and abs(g) <= atol), 'len_ok': bool(ok),
-                    'got': g, 'want': float(want)})
+    S = np.array([_fl(L.scale(u, r[0])) for r in rays], dtype=float).reshape(len(rays), 3)
+    N = np.array([_fl(r[1]) for r in rays], dtype=float).reshape(len(rays), 3)
+
+    def values(got, dims, shape):
+        if not isinstance(got, sc.Variable):
+            raise _Malformed(f'result is a {type(got).__name__}')
+        got = got.to(unit=unit, copy=False)
+        if set(got.dims) != set(dims) or len(got.dims) != len(dims):
+            raise _Malformed(f'result has dims {got.dims}, expected {dims}')
+        if tuple(got.dims) != tuple(dims):
+            got = got.transpose(list(dims))
+        vals = np.array(got.values, dtype=float)
+        if vals.shape != tuple(shape):
+            raise _Malformed(f'result has shape {vals.shape}, expected {shape}')
+        return vals
+
+    n = len(rays)
+    if layout == '1d':
+        return values(cyl.beam_intersection(sc.vectors(dims=['ray'], values=S, unit=unit),
+                                            sc.vectors(dims=['ray'], values=N)), ('ray',), (n,))
+    if layout == '1d_reversed':
+        return values(cyl.beam_intersection(sc.vectors(dims=['ray'], values=S[::-1].copy(), unit=unit),
+                                            sc.vectors(dims=['ray'], values=N[::-1].copy())), ('ray',), (n,))[::-1]
+    if layout == '0d':
+        return np.array([float(values(cyl.beam_intersection(sc.vector(S[i], unit=unit), sc.vector(N[i])), (), ()))
+                         for i in range(n)])
+    out = np.full(n, np.nan)
+    skeys = [tuple(r[0]) for r in rays]
+    nkeys = [tuple(r[1]) for r in rays]
+    if layout in ('start0d', 'dir0d'):
+        keys = skeys if layout == 'start0d' else nkeys
+        groups = {}
+        for i, k in enumerate(keys):
+            groups.setdefault(k, []).append(i)
+        for idx in groups.values():
+            if layout == 'start0d':
+                got = cyl.beam_intersection(sc.vector(S[idx[0]], unit=unit), sc.vectors(dims=['d'], values=N[idx]))
+                out[idx] = values(got, ('d',), (len(idx),))
+            else:
+                got = cyl.beam_intersection(sc.vectors(dims=['s'], values=S[idx], unit=unit), sc.vector(N[idx[0]]))
+                out[idx] = values(got, ('s',), (len(idx),))
+        return out
+    # grids: distinct starts along 'a', distinct directions along 'b'
+    si, ni = {}, {}
+    for i in range(n):
+        si.setdefault(skeys[i], len(si))
+        ni.setdefault(nkeys[i], len(ni))
+    na, nb = len(si), len(ni)
+    SA = np.zeros((na, 3))
+    NB = np.zeros((nb, 3))
+    for i in range(n):
+        SA[si[skeys[i]]] = S[i]
+        NB[ni[nkeys[i]]] = N[i]
+    if layout == '2d':
+        got = cyl.beam_intersection(sc.vectors(dims=['a'], values=SA, unit=unit), sc.vectors(dims=['b'], values=NB))
+    elif layout == '2d_transposed':
+        # both operands full 2-d arrays whose memory order is the transpose of their dims order
+        sbuf = np.ascontiguousarray(np.broadcast_to(SA[None, :, :], (nb, na, 3)))
+        nbuf = np.ascontiguousarray(np.broadcast_to(NB[None, :, :], (na, nb, 3)))
+        s2 = sc.vectors(dims=['b', 'a'], values=sbuf, unit=unit).transpose(['a', 'b'])
+        n2 = sc.vectors(dims=['a', 'b'], values=nbuf).transpose(['b', 'a'])
+        got = cyl.beam_intersection(s2, n2)
+    else:
+        raise MachineryError(f'unknown layout {layout}')
+    grid = values(got, ('a', 'b'), (na, nb))
+    for i in range(n):
+        out[i] = grid[si[skeys[i]], ni[nkeys[i]]]
     return out
 
 
-def _ray_violation(ctx, clause, c, s, n, res, r, u, unit):
-    ctx.violation(f'beam_intersection: {clause} [{res["cls"]} ray]',
-                  {'cyl': L.cyl_ints(c), 'start': L.vec_ints(s), 'dir': L.vec_ints(n), 'unit': unit,
-                   'scale': str(u), 'got': r.get('got'), 'want': r.get('want'), 'axis': _fl(c.axis)})
+def _layout_ok(layout, rays):
+    """Grids only when the full product is affordable; one call per ray only for short batches."""
+    if layout in ('2d', '2d_transposed'):
+        return len({tuple(r[0]) for r in rays}) * len({tuple(r[1]) for r in rays}) <= 40000
+    return True
 
 
-def _replay_tlc_rays(ctx, path):
-    """M1: every ray case TLC enumerated, replayed into the code; also binds the Python oracle to TLC."""
+def _ray_tol(c, s, n, res, u, special):
+    """(relative, absolute) tolerance of one ray, see the module docstring."""
+    size = float(c.size * u)
+    if special:
+        na = L.dot(n, c.axis)
+        theta = float(mpmath.sqrt(L.mp(1 - na * na)))
+        phi = abs(float(na))
+        w0 = L.sub(s, c.base)
+        bn = float(mpmath.sqrt(L.mp(L.dot(w0, w0))))
+        rel = 1e-12 + 64 * EPS * (1 + bn / float(min(c.r, c.h))) * (1 / max(theta, 1e-300) + 1 / max(phi, 1e-300))
+        return rel, 1e-12 * size
+    if res['cls'] == 'tangent' and not _exact_arith(c, n, u):
+        return 1e-12, 1e-6 * size
+    return 1e-12, 1e-12 * size
+
+
+def _run_rays(ctx, c, rays, u, unit, what, layout='1d', sizes='float64', special=False):
+    """rays: list of (s, n, res) with res = c.chord(s, n).  Returns per-ray dicts (zero, len_ok, raised)."""
+    tag = '' if layout == '1d' and sizes == 'float64' else f', {layout} layout, {sizes} radius/height'
+    try:
+        cyl = _sc_cylinder(c, u, unit, sizes)
+        vals = _beam_lengths(cyl, rays, u, unit, layout)
+    except MachineryError:
+        raise
+    except Exception as e:  # noqa: BLE001
+        how = 'returned a malformed result' if isinstance(e, _Malformed) else f'raised {type(e).__name__}'
+        ctx.violation(f'beam_intersection {how} ({what}{tag})',
+                      {'cyl': L.cyl_ints(c) if not special else _cyl_float(c), 'unit': unit, 'scale': str(u),
+                       'layout': layout, 'sizes': sizes, 'exc': repr(e)[:300]})
+        return [{'raised': True, 'zero': False, 'len_ok': False, 'got': None} for _ in rays]
+    out = []
+    for (s, n, res), g in zip(rays, vals, strict=True):
+        g = float(g)
+        want = res['length'] * L.mp(u)
+        rtol, atol = _ray_tol(c, s, n, res, u, special)
+        ok = np.isfinite(g) and abs(mpmath.mpf(g) - want) <= mpmath.mpf(rtol) * want + atol
+        out.append({'raised': False, 'zero': bool(np.isfinite(g) and abs(g) <= atol), 'len_ok': bool(ok),
+                    'got': g, 'want': float(want), 'rtol': rtol})
+    return out
+
+
+def _cyl_float(c):
+    return {'axis': _fl(c.axis), 'base': _fl(c.base), 'r': float(c.r), 'h': float(c.h)}
+
+
+def _ray_key(clause, cls, layout='1d', sizes='float64', special='', second=False):
+    tag = f'{cls} ray'
+    if special:
+        tag += f', {special}'
+    if layout != '1d':
+        tag += f'; {layout} layout'
+    if sizes != 'float64':
+        tag += f'; {sizes} radius/height'
+    return f'beam_intersection: {clause} [{tag}]' + (SECOND if second else '')
+
+
+def _ray_violation(ctx, clause, c, s, n, res, r, u, unit, layout='1d', sizes='float64', special='', second=False):
+    big = max(abs(x.numerator) + x.denominator for x in (*s, *n, *c.base, *c.axis)) > 10 ** 9
+    ctx.violation(_ray_key(clause, res['cls'], layout, sizes, special, second),
+                  {'cyl': _cyl_float(c) if big else L.cyl_ints(c), 'start': _fl(s) if big else L.vec_ints(s),
+                   'dir': _fl(n) if big else L.vec_ints(n), 'unit': unit, 'scale': str(u), 'layout': layout,
+                   'sizes': sizes, 'got': r.get('got'), 'want': r.get('want'), 'rtol': r.get('rtol'),
+                   'axis': _fl(c.axis)})
+
+
+def _judge_direct(ctx, c, rays, obs, u, unit, layout, sizes, classes=None, second=False, ci=0):
+    for (s, n, res), r in zip(rays, obs, strict=True):
+        cls = res['cls']
+        if classes is not None:
+            classes[cls] = classes.get(cls, 0) + 1
+        ctx.case(nontrivial_id=('ray', ci, tuple(s), tuple(n), str(u), layout, second) if res['length'] > 0 else None)
+        if r['raised']:
+            continue
+        kw = {'layout': layout, 'sizes': sizes, 'second': second}
+        if cls in ('parallel_miss', 'tangent', 'miss_line', 'miss_solid') and not r['zero']:
+            _ray_violation(ctx, 'positive length for a ray that misses the solid', c, s, n, res, r, u, unit, **kw)
+        elif res['length'] > 0 and r['zero']:
+            _ray_violation(ctx, 'zero length for a ray that passes through the solid', c, s, n, res, r, u, unit, **kw)
+        elif not r['len_ok']:
+            _ray_violation(ctx, 'length differs from the exact chord', c, s, n, res, r, u, unit, **kw)
+
+
+def _replay_tlc_rays(ctx, path, keep):
+    """M1: every ray case TLC enumerated, replayed into the code; also binds the Python oracle to TLC.
+    `keep` collects (c, rays, ci) of some cylinders for the second evaluation at the end of the run."""
     by_cyl = {}
     n_cases = 0
     with open(path) as f:
@@ -168,6 +363,7 @@ def _replay_tlc_rays(ctx, path):
             by_cyl.setdefault(json.dumps(rec['c'], sort_keys=True), []).append(rec)
             n_cases += 1
     classes = {}
+    layouts_used = {}
     for ci, (ckey, recs) in enumerate(sorted(by_cyl.items())):
         c = L.cyl_from_ints(json.loads(ckey))
         rays = []
@@ -184,24 +380,41 @@ def _replay_tlc_rays(ctx, path):
                     raise MachineryError(f'oracle/TLC length mismatch {rec} vs {res["exact"]}')
             if _well_conditioned(res, c.size):
                 rays.append((s, n, res))
-        # two scales per cylinder: one power of two (exact scaling), one arbitrary
-        for u, unit in (_pick_scale(ctx.rng, c, pow2=True), _pick_scale(ctx.rng, c)):
-            obs = _run_rays(ctx, c, rays, u, unit, 'model cases')
-            for (s, n, res), r in zip(rays, obs, strict=True):
-                cls = res['cls']
-                classes[cls] = classes.get(cls, 0) + 1
-                ctx.case(nontrivial_id=('ray', ci, tuple(s), tuple(n), str(u)) if res['length'] > 0 else None)
-                if r['raised']:
-                    continue
-                if cls in ('parallel_miss', 'tangent', 'miss_line', 'miss_solid') and not r['zero']:
-                    _ray_violation(ctx, 'positive length for a ray that misses the solid', c, s, n, res, r, u, unit)
-                elif res['length'] > 0 and r['zero']:
-                    _ray_violation(ctx, 'zero length for a ray that passes through the solid', c, s, n, res, r, u, unit)
-                elif not r['len_ok']:
-                    _ray_violation(ctx, 'length differs from the exact chord', c, s, n, res, r, u, unit)
+        if not rays:
+            continue
+        # two scales per cylinder: one power of two (exact scaling) in the plain presentation, one arbitrary
+        # in another layout / number type (the layouts rotate over the cylinders so that each one meets
+        # every cylinder orientation class and every ray class of the model)
+        lay2 = LAYOUTS[1 + ci % (len(LAYOUTS) - 1)]
+        for k, (u, unit) in enumerate((_pick_scale(ctx.rng, c, pow2=True), _pick_scale(ctx.rng, c))):
+            layout = '1d' if k == 0 else lay2
+            sizes = 'float64' if k == 0 and ci % 3 else ctx.rng.choice(_size_types(c, u))
+            use = rays if layout != '0d' else ctx.rng.sample(rays, min(len(rays), 24))
+            obs = _run_rays(ctx, c, use, u, unit, 'model cases', layout, sizes)
+            layouts_used[layout] = layouts_used.get(layout, 0) + len(use)
+            _judge_direct(ctx, c, use, obs, u, unit, layout, sizes, classes, ci=ci)
+        if ci % 5 == 0:
+            keep.append((c, rays, ci))
     ctx.extra['replayed_ray_cases'] = n_cases
     ctx.extra['replayed_ray_classes'] = classes
+    ctx.extra['replayed_ray_layouts'] = layouts_used
     return n_cases
+
+
+def _replay_again(ctx, keep):
+    """Item 6: a sample of the model cases once more, at the end of the run, in another order and layout."""
+    keep = list(keep)
+    ctx.rng.shuffle(keep)
+    n = 0
+    for c, rays, ci in keep[: (40 if ctx.thorough else 10)]:
+        rays = list(rays)
+        ctx.rng.shuffle(rays)
+        u, unit = _pick_scale(ctx.rng, c)
+        layout = ctx.rng.choice(['1d_reversed', 'dir0d', '2d'])
+        obs = _run_rays(ctx, c, rays, u, unit, 'model cases, second evaluation', layout, 'float64')
+        _judge_direct(ctx, c, rays, obs, u, unit, layout, 'float64', second=True, ci=ci)
+        n += len(rays)
+    ctx.extra['replayed_again_ray_cases'] = n
 
 
 def _random_cyl(ctx, small):
@@ -218,6 +431,33 @@ def _random_cyl(ctx, small):
     r = rng.randint(1, 4) if small else rng.choice([1, 2, 3, 5, 8, 9, 20, 100])
     h = rng.randint(1, 6) if small else rng.choice([1, 2, 3, 4, 7, 9, 20, 100])
     return L.Cyl(L.qrot(q), base, r, h)
+
+
+def _near_pole_cyl(ctx):
+    """Axis 1e-3 .. 1e-9 rad away from +z or -z (item 4: a threshold on |z x axis| must not matter)."""
+    rng = ctx.rng
+    m = rng.choice([10 ** 3, 3 * 10 ** 4, 10 ** 6, 2 * 10 ** 7, 10 ** 8, 10 ** 9])
+    a, b = rng.choice([(1, 0), (0, 1), (1, 1), (-1, 1), (1, -1), (-1, -1), (0, -1), (-1, 0)])
+    q = rng.choice([(m, a, b, 0), (a, m, b, 0), (b, a, m, 0)])        # near +z, near -z, near -z
+    base = tuple(F(rng.randint(-40, 40), rng.choice([1, 2, 3])) for _ in range(3))
+    return L.Cyl(L.qrot(q), base, rng.choice([1, 2, 3, 5, 9]), rng.choice([1, 2, 4, 7, 9]))
+
+
+def _extreme_cyl(ctx, mode=None):
+    """Aspect ratio 10 .. 1e6 with radius and height inside 1e-3 .. 1e3; returns (cylinder, scale)."""
+    rng = ctx.rng
+    mode = mode or rng.choice(['long', 'flat'])
+    asp = rng.choice([10, 100, 10 ** 3, 10 ** 4, 10 ** 5, 10 ** 5, 10 ** 6, 10 ** 6])
+    r, h = (1, asp) if mode == 'long' else (asp, 1)
+    q = L.random_quaternion(rng, 3)
+    if rng.random() < 0.2:
+        q = rng.choice([(1, 0, 0, 0), (0, 1, 0, 0), (1, 1, 0, 0), (1, 0, -1, 0)])
+    base = tuple(F(rng.randint(-40, 40), rng.choice([1, 2, 3])) for _ in range(3))
+    c = L.Cyl(L.qrot(q), base, r, h)
+    lo, hi = F(1, 1000) / min(r, h), F(1000) / max(r, h)          # admissible scales: lo <= u <= hi
+    cands = [u for u in (F(1), F(1, 1024), F(1, 1000), F(37, 100), F(1, 512), F(3, 2000), F(1, 125), F(1, 8)) if lo <= u <= hi]
+    u = rng.choice(cands) if cands else hi
+    return c, u, mode, asp
 
 
 def _unit_dir(rng, units, c=None):
@@ -263,10 +503,39 @@ def _random_rays(ctx, c, units, nrays, small):
     return rays
 
 
-def _ray_events(ctx, events, n_cyl, nrays):
+def _tilted_rays(ctx, c, mode, asp, nrays):
+    """Rays tilted by a small rational rotation away from the axis direction (long cylinders) or away from a
+    direction perpendicular to the axis (flat cylinders), starting inside the solid."""
+    rng = ctx.rng
+    rays = []
+    for _ in range(nrays * 6):
+        if len(rays) >= nrays:
+            break
+        k = rng.choice([1, 2, 3, 5, 7])
+        m = max(rng.choice([1, 2, 5, 20]) * asp // k, 3)
+        a_, b_ = rng.choice([(1, 0), (0, 1), (1, 1), (-1, 2), (2, -1), (3, 1), (-1, -1)])
+        Rs = L.qrot((m, a_, b_, 0))                   # body-frame rotation by ~ 2 sqrt(a^2+b^2)/m about a transverse axis
+        if mode == 'long':
+            nb = L.matvec(Rs, (F(0), F(0), F(rng.choice([1, -1]))))
+        else:
+            cs, sn = rng.choice([(F(3, 5), F(4, 5)), (F(1), F(0)), (F(-5, 13), F(12, 13)), (F(0), F(-1))])
+            nb = L.matvec(Rs, (cs, sn, F(0)))
+        n = L.add(L.add(L.scale(nb[0], c.e1), L.scale(nb[1], c.e2)), L.scale(nb[2], c.axis))
+        loc = (F(rng.randint(-7, 7), 8) * c.r, F(rng.randint(-7, 7), 8) * c.r * rng.choice([0, 1]),
+               F(rng.randint(-3, 3), 8) * c.h)
+        if loc[0] ** 2 + loc[1] ** 2 >= (F(15, 16) * c.r) ** 2:
+            continue
+        s = L.add(c.center, L.add(L.add(L.scale(loc[0], c.e1), L.scale(loc[1], c.e2)), L.scale(loc[2], c.axis)))
+        res = c.chord(s, n)
+        if res['cls'] != 'from_inside' or not _well_conditioned(res, c.size):
+            continue
+        rays.append((s, n, res))
+    return rays
+
+
+def _ray_events(ctx, events, n_cyl, nrays, batches):
     units_small = L.unit_vectors(7)
     units_big = L.unit_vectors(33)
-    placeholder = {'m': [[1, 0, 0], [0, 1, 0], [0, 0, 1]], 'k': 1, 'b': [0, 0, 0, 1], 'r': 1, 'h': 1}
     for i in range(n_cyl):
         small = i % 2 == 0
         c = _random_cyl(ctx, small)
@@ -274,26 +543,76 @@ def _ray_events(ctx, events, n_cyl, nrays):
         if not rays:
             continue
         u, unit = _pick_scale(ctx.rng, c, pow2=(i % 4 == 0))
-        obs = _run_rays(ctx, c, rays, u, unit, 'random cases')
-        for (s, n, res), r in zip(rays, obs, strict=True):
-            fits = L.ray_fits32(c, s, n)
-            ev = {'ev': 'ray', 'tid': len(events), 'small': bool(fits),
-                  'c': L.cyl_ints(c) if fits else placeholder,
-                  's': L.vec_ints(s) if fits else [0, 0, 0, 1], 'n': L.vec_ints(n) if fits else [0, 0, 1, 1],
-                  'grazing': bool(res['grazing']), 'cls': res['cls'], 'raised': r['raised'],
-                  'zero': r['zero'], 'len_ok': r['len_ok']}
-            events.append((ev, {'kind': 'ray', 'c': c, 's': s, 'n': n, 'res': res, 'r': r, 'u': u, 'unit': unit}))
-            ctx.case(nontrivial_id=('rr', len(events)) if res['length'] > 0 else None)
+        layout = LAYOUTS[i % len(LAYOUTS)] if i % 3 else '1d'
+        if not _layout_ok(layout, rays):
+            layout = '1d_reversed'
+        if layout == '0d':
+            rays = rays[:12]
+        sizes = _pick_sizes(ctx.rng, c, u)
+        _record_rays(ctx, events, c, rays, u, unit, layout, sizes, '', batches, 'random cases')
+
+
+def _special_ray_events(ctx, events, n_cyl, nrays, batches):
+    """Item 4: extreme aspect ratios with slightly tilted rays; tolerance derived in the module docstring."""
+    n_ok = 0
+    for i in range(n_cyl):
+        c, u, mode, asp = _extreme_cyl(ctx)
+        rays = []
+        for s, n, res in _tilted_rays(ctx, c, mode, asp, nrays):
+            rtol, _ = _ray_tol(c, s, n, res, u, True)
+            if rtol <= 1e-2:
+                rays.append((s, n, res))
+        if not rays:
+            continue
+        n_ok += len(rays)
+        unit = ctx.rng.choice(UNITS)
+        layout = ctx.rng.choice(['1d', '1d', 'dir0d', 'start0d', '1d_reversed'])
+        special = ('nearly parallel to the axis of a long cylinder' if mode == 'long'
+                   else 'nearly perpendicular to the axis of a flat cylinder')
+        _record_rays(ctx, events, c, rays, u, unit, layout, 'float64', special, batches, 'tilted rays, extreme aspect ratio')
+    ctx.extra['tilted_ray_cases'] = n_ok
+
+
+def _record_rays(ctx, events, c, rays, u, unit, layout, sizes, special, batches, what, of=None):
+    """One batch of rays -> one event per ray.  of = list of first-pass event lines (second evaluation)."""
+    obs = _run_rays(ctx, c, rays, u, unit, what, layout, sizes, special=bool(special))
+    lines = []
+    for j, ((s, n, res), r) in enumerate(zip(rays, obs, strict=True)):
+        fits = not special and L.ray_fits32(c, s, n)
+        first = events[of[j] - 1][0] if of else None
+        ev = {'ev': 'ray', 'tid': len(events), 'small': bool(fits),
+              'case': first['case'] if first else len(events),
+              'c': L.cyl_ints(c) if fits else PLACEHOLDER,
+              's': L.vec_ints(s) if fits else [0, 0, 0, 1], 'n': L.vec_ints(n) if fits else [0, 0, 1, 1],
+              'grazing': bool(res['grazing']), 'cls': res['cls'], 'raised': r['raised'],
+              'zero': r['zero'], 'len_ok': r['len_ok'], 'lay': layout, 'sizes': sizes,
+              'pass': 2 if of else 1, 'of': of[j] if of else 0}
+        events.append((ev, {'kind': 'ray', 'c': c, 's': s, 'n': n, 'res': res, 'r': r, 'u': u, 'unit': unit,
+                            'layout': layout, 'sizes': sizes, 'special': special}))
+        lines.append(len(events))
+        ctx.case(nontrivial_id=('rr', len(events)) if res['length'] > 0 else None)
+    if batches is not None:
+        batches.append({'c': c, 'rays': rays, 'u': u, 'unit': unit, 'special': special, 'lines': lines, 'what': what})
 
 
 # ------------------------------------------------------------------------------------------------ quadrature
-def _quad_event(ctx, c, kind, u, unit, events):
-    placeholder = {'m': [[1, 0, 0], [0, 1, 0], [0, 0, 1]], 'k': 1, 'b': [0, 0, 0, 1], 'r': 1, 'h': 1}
-    ev = {'ev': 'quad', 'tid': len(events), 'kind': kind, 'small': False, 'c': placeholder, 'pts': [],
-          'raised': False, 'n': 0, 'n_out': 0, 'n_nonpos': 0, 'sum_ok': True, 'cen_ok': True, 'n_mom_bad': 0}
-    info = {'kind': 'quad', 'c': c, 'qkind': kind, 'u': u, 'unit': unit}
+def _quad_event(ctx, c, kind, u, unit, events, sizes='float64', reuse=False, of=None):
+    first = events[of - 1][0] if of else None
+    ev = {'ev': 'quad', 'tid': len(events), 'kind': kind, 'small': False, 'c': PLACEHOLDER, 'pts': [],
+          'case': first['case'] if first else len(events), 'sizes': sizes, 'reuse': bool(reuse),
+          'pass': 2 if of else 1, 'of': of or 0,
+          'raised': False, 'n': 0, 'n_out': 0, 'n_nonpos': 0, 'sum_ok': True, 'cen_ok': True, 'n_mom_bad': 0,
+          'n_axial_bad': 0}
+    info = {'kind': 'quad', 'c': c, 'qkind': kind, 'u': u, 'unit': unit, 'sizes': sizes, 'reuse': reuse}
     try:
-        cyl = _sc_cylinder(c, u, unit)
+        import scipp as sc
+
+        cyl = _sc_cylinder(c, u, unit, sizes)
+        if reuse:
+            # the object has been used before: another kind, a ray, the same kind; the LAST result is judged
+            cyl.quadrature('cheap' if kind != 'cheap' else 'medium')
+            cyl.beam_intersection(sc.vector(_fl(L.scale(u, c.center)), unit=unit), sc.vector(_fl(c.axis)))
+            cyl.quadrature(kind)
         p, w = cyl.quadrature(kind)
         P = np.array(p.to(unit=unit, copy=False).values, dtype=float)
         W = np.array(w.to(unit=f'{unit}**3', copy=False).values, dtype=float)
@@ -312,58 +631,108 @@ def _quad_event(ctx, c, kind, u, unit, events):
     Lc = (Pl - cen) @ E.T                         # cylinder frame, centred
     r, h, size = float(c.r), float(c.h), float(c.size)
     rad = np.hypot(Lc[:, 0], Lc[:, 1])
-    out = (rad > r + 1e-9 * size) | (np.abs(Lc[:, 2]) > h / 2 + 1e-9 * size) | ~np.isfinite(Lc).all(axis=1)
-    tol = L.moment_tol(kind)
-    V = float(mpmath.pi * L.mp(c.volume_over_pi))
-    ev['n'] = int(len(W))
-    ev['n_out'] = int(out.sum())
-    ev['n_nonpos'] = int((~(W > 0)).sum())
-    ev['sum_ok'] = bool(abs(Wl.sum() / V - 1) <= tol)
-    ev['cen_ok'] = bool(np.abs((Wl[:, None] * Lc).sum(axis=0) / V).max() <= tol * size)
-    bad = []
-    for (a, b, cc) in L.monomials(kind):
-        got = float((Wl * Lc[:, 0] ** a * Lc[:, 1] ** b * Lc[:, 2] ** cc).sum())
-        want = float(mpmath.pi * L.mp(L.moment_over_pi(c, a, b, cc)))
-        err = abs(got - want) / (V * r ** (a + b) * (h / 2) ** cc)
-        if not err <= tol:
-            bad.append(((a, b, cc), err))
-    ev['n_mom_bad'] = len(bad)
-    info.update(worst_outside=float(max((rad - r).max(), (np.abs(Lc[:, 2]) - h / 2).max()) / size),
-                frac_outside=float(out.mean()), bad_moments=[(m, float(e)) for m, e in bad[:4]],
-                sum_rel=float(Wl.sum() / V - 1))
+    with np.errstate(all='ignore'):
+        out = (rad > r + 1e-9 * size) | (np.abs(Lc[:, 2]) > h / 2 + 1e-9 * size) | ~np.isfinite(Lc).all(axis=1)
+        tol = L.moment_tol(kind)
+        V = float(mpmath.pi * L.mp(c.volume_over_pi))
+        ev['n'] = int(len(W))
+        ev['n_out'] = int(out.sum())
+        ev['n_nonpos'] = int((~(W > 0)).sum())
+        ev['sum_ok'] = bool(abs(Wl.sum() / V - 1) <= tol)
+        ev['cen_ok'] = bool(np.abs((Wl[:, None] * Lc).sum(axis=0) / V).max() <= tol * size)
+        bad = []
+        # every returned coordinate is a double of magnitude up to pmax, i.e. defined only to eps*pmax/2, and the
+        # implementation needs a handful of operations at that magnitude to place a point: a transverse
+        # (axial) frame coordinate carries a relative error of up to 16 eps pmax / r (.. / (h/2)), a monomial
+        # x^a y^b z^c the sum over its factors.  Negligible unless the cylinder is extremely long or flat.
+        pmax = float(max(np.abs(Pl).max(), np.abs(cen).max())) if np.isfinite(Pl).all() else 0.0
+        for (a, b, cc) in L.monomials(kind):
+            got = float((Wl * Lc[:, 0] ** a * Lc[:, 1] ** b * Lc[:, 2] ** cc).sum())
+            want = float(mpmath.pi * L.mp(L.moment_over_pi(c, a, b, cc)))
+            err = abs(got - want) / (V * r ** (a + b) * (h / 2) ** cc)
+            if not err <= tol + 16 * EPS * pmax * ((a + b) / r + cc / (h / 2)):
+                bad.append(((a, b, cc), err))
+        ev['n_mom_bad'] = len(bad)
+        # even axial moments of the two Chebyshev-based kinds: within 3x the error of the documented line rule
+        axial = []
+        if kind != 'cheap':
+            for (a, b, cc) in L.axial_monomials():
+                got = float((Wl * Lc[:, 0] ** a * Lc[:, 1] ** b * Lc[:, 2] ** cc).sum())
+                want = float(mpmath.pi * L.mp(L.moment_over_pi(c, a, b, cc)))
+                err = abs(got - want) / want
+                if not err <= L.axial_tol(kind, cc) + 16 * EPS * pmax * ((a + b) / r + cc / (h / 2)):
+                    axial.append(((a, b, cc), err))
+        ev['n_axial_bad'] = len(axial)
+        info['bad_axial_moments'] = [(m, float(e)) for m, e in axial]
+        info.update(worst_outside=float(np.nanmax(np.concatenate([rad - r, np.abs(Lc[:, 2]) - h / 2])) / size)
+                    if np.isfinite(Lc).any() else None,
+                    frac_outside=float(out.mean()), bad_moments=[(m, float(e)) for m, e in bad[:4]],
+                    sum_rel=float(Wl.sum() / V - 1))
     # points handed to TLC: rounded to 1/64 lattice unit; all points for the small rules, a subsample
     # (every 16th + the worst offenders) for the big one
-    idx = np.arange(len(W)) if len(W) <= 800 else np.unique(np.concatenate(
-        [np.arange(0, len(W), 16), np.argsort(-(rad - r))[:20], np.argsort(-np.abs(Lc[:, 2]))[:20]]))
-    if np.isfinite(Pl).all() and np.abs(Pl).max() < 1e6:
+    if np.isfinite(Pl).all() and np.abs(Pl).max() < 1e6 and c.r.denominator == 1 and c.h.denominator == 1 \
+            and max(abs(x.numerator) + x.denominator for x in (*c.axis, *c.base)) < 10 ** 6:
+        idx = np.arange(len(W)) if len(W) <= 800 else np.unique(np.concatenate(
+            [np.arange(0, len(W), 16), np.argsort(-(rad - r))[:20], np.argsort(-np.abs(Lc[:, 2]))[:20]]))
         pts = [[int(round(x * 64)) for x in Pl[i]] + [64] for i in idx]
-        if c.r.denominator == 1 and c.h.denominator == 1 and L.quad_fits32(c, pts):
+        if L.quad_fits32(c, pts):
             ev['small'] = True
             ev['c'] = L.cyl_ints(c)
             ev['pts'] = pts
+    if first is not None and first['small'] != ev['small']:
+        # the judge compares the integers of both passes: keep them identical (the numeric flags decide)
+        ev['small'], ev['c'], ev['pts'] = first['small'], first['c'], (ev['pts'] if first['small'] else [])
+        if first['small'] and not ev['pts']:
+            ev['n_out'] = max(ev['n_out'], 1)      # points that cannot even be rounded are outside
     events.append((ev, info))
 
 
 # ------------------------------------------------------------------------------------------------ transmission
-def _tmap(c, u, unit, beam, dets, det_unit, det_scale, kind, material, wavelengths):
+LEN_TO_M = {'mm': F(1, 1000), 'cm': F(1, 100), 'm': F(1)}
+WL_TO_ANGSTROM = {'angstrom': 1.0, 'nm': 0.1, 'pm': 100.0, 'm': 1e-10}   # value in unit = value in angstrom * factor
+
+
+def _tmap(c, u, unit, beam, dets, det_unit, det_scale, kind, material, lam, lam_unit='angstrom', order=None,
+          det_layout='1d', sizes='float64', lam_type='float64'):
+    """Transmission as an array [detector, wavelength] in the order of `dets` and `lam`, whatever the order,
+    unit and layout in which they were handed over."""
     import scipp as sc
     from scippneutron.absorption import compute_transmission_map
 
-    cyl = _sc_cylinder(c, u, unit)
+    order = list(range(len(lam))) if order is None else list(order)
+    wl = sc.array(dims=['wavelength'], values=np.array([lam[i] * WL_TO_ANGSTROM[lam_unit] for i in order]), unit=lam_unit)
+    if lam_type != 'float64':                     # only chosen when every value is the same number in that type
+        wl = wl.to(dtype=lam_type)
+    cyl = _sc_cylinder(c, u, unit, sizes)
+    D = np.array([_fl(L.scale(det_scale, d)) for d in dets])
+    nd = len(dets)
+    if det_layout == '1d':
+        det = sc.vectors(dims=['det'], values=D, unit=det_unit)
+        ddims = ['det']
+    elif det_layout == '2d':
+        det = sc.vectors(dims=['dy', 'dx'], values=D.reshape(2, nd // 2, 3), unit=det_unit)
+        ddims = ['dy', 'dx']
+    else:  # '2d_transposed': memory order (dx, dy), dims (dy, dx)
+        buf = np.ascontiguousarray(D.reshape(2, nd // 2, 3).transpose(1, 0, 2))
+        det = sc.vectors(dims=['dx', 'dy'], values=buf, unit=det_unit).transpose(['dy', 'dx'])
+        ddims = ['dy', 'dx']
     tm = compute_transmission_map(
-        cyl, material, beam_direction=sc.vector(_fl(beam)), wavelength=wavelengths,
-        detector_position=sc.vectors(dims=['det'], values=np.array([_fl(L.scale(det_scale, d)) for d in dets]),
-                                     unit=det_unit),
+        cyl, material, beam_direction=sc.vector(_fl(beam)), wavelength=wl, detector_position=det,
         quadrature_kind=kind)
-    if tm.dims != ('det', 'wavelength'):
-        tm = tm.transpose(['det', 'wavelength'])
+    if set(tm.dims) != set(ddims + ['wavelength']) or len(tm.dims) != len(ddims) + 1:
+        raise ValueError(f'transmission has dims {tm.dims}')
+    tm = tm.transpose([*ddims, 'wavelength'])
     if tm.unit != sc.units.dimensionless:
         raise ValueError(f'transmission has unit {tm.unit}')
-    return np.array(tm.values, dtype=float)
+    vals = np.array(tm.values, dtype=float).reshape(nd, len(lam))
+    out = np.empty_like(vals)
+    out[:, order] = vals
+    return out
 
 
-def _material(mu_per_lattice, u, unit, absorbing, density_factor=1.0):
-    """A material with attenuation mu (1/lattice unit) at the first wavelength."""
+def _material(mu_per_lattice, u, unit, absorbing, density_factor=1.0, real_units=False):
+    """A material with attenuation mu (1/lattice unit) at the first wavelength.  real_units: the same
+    material with cross-sections in barn and the number density in 1/angstrom^3."""
     import scipp as sc
     from scippneutron.absorption import Material
     from scippneutron.atoms import ScatteringParams
@@ -372,15 +741,27 @@ def _material(mu_per_lattice, u, unit, absorbing, density_factor=1.0):
     mu = mu_per_lattice / float(u)
     sig_s = mu * (0.4 if absorbing else 1.0)
     sig_a = mu * 0.6 if absorbing else 0.0   # * lambda/1.7982 A
+    if real_units:
+        to_m = float(LEN_TO_M[unit])
+        # sigma [unit^2] * n [1/unit^3]: put 1e-2/angstrom^3 into the density, the rest into the cross-section
+        dens = 0.01 * density_factor                                     # 1/angstrom^3
+        k = (1.0 / to_m) / (0.01 * 1e30)                                 # sigma in m^2 such that n sigma = 1/unit
+        return Material(
+            ScatteringParams('Fake', absorption_cross_section=sc.scalar(sig_a * k * 1e28, unit='barn'),
+                             total_scattering_cross_section=sc.scalar(sig_s * k * 1e28, unit='barn')),
+            sc.scalar(dens, unit='1/angstrom**3'))
     return Material(
         ScatteringParams('Fake', absorption_cross_section=sc.scalar(sig_a, unit=f'{unit}**2'),
                          total_scattering_cross_section=sc.scalar(sig_s, unit=f'{unit}**2')),
         sc.scalar(density_factor, unit=f'1/{unit}**3'))
 
 
-def _trans_event(ctx, events, c, q, tau, mode, kinds, units_dirs):
-    import scipp as sc
+def _in_range(c, u):
+    return F(1, 1000) <= c.r * u <= 1000 and F(1, 1000) <= c.h * u <= 1000
 
+
+def _trans_params(ctx, c, q, tau, mode, kinds, units_dirs):
+    """Everything that defines one transmission case (drawn once; the second evaluation reuses it)."""
     rng = ctx.rng
     if mode == 'otherend':
         gc = c.other_end()
@@ -388,80 +769,134 @@ def _trans_event(ctx, events, c, q, tau, mode, kinds, units_dirs):
     else:
         Q, tv = L.qrot(q), tau
         gc = c.moved(Q, tv)
-    placeholder = {'m': [[1, 0, 0], [0, 1, 0], [0, 0, 1]], 'k': 1, 'b': [0, 0, 0, 1], 'r': 1, 'h': 1}
-    fits = c.r.denominator == 1 and L.move_fits32(c, q, tau) and L.move_fits32(gc, (1, 0, 0, 0), (F(0),) * 3)
     u, unit = _pick_scale(rng, c)
     if unit in ('um', 'angstrom'):
         unit = 'mm'
     det_unit = rng.choice(['m', unit])
-    det_scale = u * {'mm': F(1, 1000), 'cm': F(1, 100), 'm': F(1)}[unit] if det_unit == 'm' and unit != 'm' else u
+    # the moved copy in another length unit (same lengths): u2 [unit2] = u [unit]
+    unit2, u2 = unit, u
+    others = [x for x in LEN_TO_M if x != unit and _in_range(c, u * LEN_TO_M[unit] / LEN_TO_M[x])]
+    if others and rng.random() < 0.7:
+        unit2 = rng.choice(others)
+        u2 = u * LEN_TO_M[unit] / LEN_TO_M[unit2]
+    det_unit2 = rng.choice(['m', 'cm', unit2])
     beam = _unit_dir(rng, units_dirs)
     dets = []
     for _ in range(6):
         d = _unit_dir(rng, units_dirs)
         dets.append(L.add(c.center, L.scale(rng.choice([3, 10, 1000]) * c.size, d)))
-    gbeam = L.matvec(Q, beam)
-    gdets = [L.add(L.matvec(Q, d), tv) for d in dets]
-    mus = rng.choice([0.05, 0.2, 0.5, 1.0, 3.0]) / float(c.size)
-    absorbing = rng.random() < 0.6
     lam = sorted(rng.sample([0.1, 0.5, 1.0, 1.7982, 4.0, 9.0, 20.0], 3))
-    wl = sc.array(dims=['wavelength'], values=lam, unit='angstrom')
+    order2 = list(range(3))
+    rng.shuffle(order2)
+    lam_unit2 = rng.choice(['angstrom', 'nm', 'pm', 'm'])
+    lam_type2 = rng.choice(_lam_types(lam, lam_unit2))
+    return {'lam_type2': lam_type2, 'c': c, 'gc': gc, 'q': q, 'tau': tau, 'mode': mode, 'kinds': kinds, 'Q': Q, 'tv': tv,
+            'u': u, 'unit': unit, 'det_unit': det_unit, 'u2': u2, 'unit2': unit2, 'det_unit2': det_unit2,
+            'beam': beam, 'dets': dets, 'gbeam': L.matvec(Q, beam), 'gdets': [L.add(L.matvec(Q, d), tv) for d in dets],
+            'mus': rng.choice([0.05, 0.2, 0.5, 1.0, 3.0]) / float(c.size), 'absorbing': rng.random() < 0.6,
+            'real_units': rng.random() < 0.3, 'lam': lam, 'order2': order2,
+            'lam_unit2': lam_unit2,
+            'det_layout2': rng.choice(['1d', '2d', '2d_transposed']),
+            'sizes2': rng.choice(_size_types(gc, u2))}
+
+
+def _lam_types(lam, lam_unit):
+    """Number types that hold the wavelengths (in lam_unit) as the very same numbers."""
+    vals = [x * WL_TO_ANGSTROM[lam_unit] for x in lam]
+    out = ['float64']
+    if all(float(np.float32(v)) == v for v in vals):
+        out.append('float32')
+    if all(float(v).is_integer() for v in vals):
+        out += ['int64', 'int32']
+    return out
+
+
+def _det_scale(u, unit, det_unit):
+    """Length of one lattice unit in det_unit, given that it is u in `unit`."""
+    return u * LEN_TO_M[unit] / LEN_TO_M[det_unit]
+
+
+def _trans_event(ctx, events, P, of=None):
+    c, gc, mode, kinds = P['c'], P['gc'], P['mode'], P['kinds']
+    q, tau = P['q'], P['tau']
+    u, unit, u2, unit2 = P['u'], P['unit'], P['u2'], P['unit2']
+    first = events[of - 1][0] if of else None
+    fits = c.r.denominator == 1 and L.move_fits32(c, q, tau) and L.move_fits32(gc, (1, 0, 0, 0), (F(0),) * 3)
     ev = {'ev': 'trans', 'tid': len(events), 'mode': mode, 'small': bool(fits),
-          'c': L.cyl_ints(c) if fits else placeholder, 'gc': L.cyl_ints(gc) if fits else placeholder,
+          'case': first['case'] if first else len(events), 'pass': 2 if of else 1, 'of': of or 0,
+          'reunit': unit2 != unit,
+          'c': L.cyl_ints(c) if fits else PLACEHOLDER, 'gc': L.cyl_ints(gc) if fits else PLACEHOLDER,
           'q': list(q), 'tau': L.vec_ints(tau), 'raised': False, 'range_ok': True, 'one_ok': True,
           'mono_ok': True, 'inv_ok': True}
-    info = {'kind': 'trans', 'c': c, 'gc': gc, 'mode': mode, 'u': u, 'unit': unit, 'mu_size': mus * float(c.size),
-            'beam': _fl(beam), 'wavelengths': lam, 'absorbing': absorbing, 'det_unit': det_unit}
+    info = {'kind': 'trans', 'c': c, 'gc': gc, 'mode': mode, 'u': u, 'unit': unit, 'mu_size': P['mus'] * float(c.size),
+            'beam': _fl(P['beam']), 'wavelengths': P['lam'], 'absorbing': P['absorbing'], 'det_unit': P['det_unit'],
+            'moved_copy_presented_as': {'unit': unit2, 'scale': str(u2), 'detector_unit': P['det_unit2'],
+                                        'wavelength_unit': P['lam_unit2'], 'wavelength_type': P['lam_type2'], 'wavelength_order': P['order2'],
+                                        'detector_layout': P['det_layout2'], 'sizes': P['sizes2']},
+            'material_units': 'barn, 1/angstrom^3' if P['real_units'] else f'{unit}^2, 1/{unit}^3', 'P': P}
+    lam = P['lam']
+
+    def orig(kind, mat):
+        return _tmap(c, u, unit, P['beam'], P['dets'], P['det_unit'], _det_scale(u, unit, P['det_unit']), kind, mat, lam)
+
+    def moved(kind, mat):
+        return _tmap(gc, u2, unit2, P['gbeam'], P['gdets'], P['det_unit2'], _det_scale(u2, unit2, P['det_unit2']), kind,
+                     mat, lam, P['lam_unit2'], P['order2'], P['det_layout2'], P['sizes2'], P['lam_type2'])
+
     try:
-        mat = _material(mus, u, unit, absorbing)
-        T = {k: _tmap(c, u, unit, beam, dets, det_unit, det_scale, k, mat, wl) for k in KINDS}
-        G = {k: _tmap(gc, u, unit, gbeam, gdets, det_unit, det_scale, k, mat, wl) for k in KINDS}
-        mat2 = _material(mus, u, unit, absorbing, density_factor=1.75)
-        mat0 = _material(0.0, u, unit, False)
+        mat = _material(P['mus'], u, unit, P['absorbing'], real_units=P['real_units'])
+        T = {k: orig(k, mat) for k in KINDS}
+        G = {k: moved(k, mat) for k in KINDS}
+        mat2 = _material(P['mus'], u, unit, P['absorbing'], density_factor=1.75, real_units=P['real_units'])
+        mat0 = _material(0.0, u, unit, False, real_units=P['real_units'])
         k0 = kinds[0]
-        T2 = _tmap(c, u, unit, beam, dets, det_unit, det_scale, k0, mat2, wl)
-        T0 = {k: _tmap(gc, u, unit, gbeam, gdets, det_unit, det_scale, k, mat0, wl) for k in kinds}
+        T2 = orig(k0, mat2)
+        T0 = {k: moved(k, mat0) for k in kinds}
     except Exception as e:  # noqa: BLE001
         ev['raised'] = True
         info['exc'] = repr(e)[:300]
         events.append((ev, info))
         return
     details = {}
-    for k in KINDS:
-        tol = L.moment_tol(k)
-        for name, arr in (('c', T[k]), ('gc', G[k])):
-            if not (np.isfinite(arr).all() and (arr > 0).all() and (arr <= 1 + tol).all()):
-                ev['range_ok'] = False
-                details['range'] = (k, name, float(np.nanmin(arr)), float(np.nanmax(arr)))
-    for k in kinds:
-        if not (np.abs(T0[k] - 1) <= L.moment_tol(k)).all():
-            ev['one_ok'] = False
-            details['one'] = (k, float(np.abs(T0[k] - 1).max()))
-    # denser material => strictly smaller transmission; absorbing material => decreasing in wavelength
-    if not (T2 < T[k0]).all():
-        ev['mono_ok'] = False
-        details['mono_density'] = (k0, float((T2 - T[k0]).max()))
-    if absorbing:
+    with np.errstate(all='ignore'):
+        for k in KINDS:
+            tol = L.moment_tol(k)
+            for name, arr in (('c', T[k]), ('gc', G[k])):
+                if not (np.isfinite(arr).all() and (arr > 0).all() and (arr <= 1 + tol).all()):
+                    ev['range_ok'] = False
+                    details['range'] = (k, name, float(np.nanmin(arr)) if np.isfinite(arr).any() else None,
+                                        float(np.nanmax(arr)) if np.isfinite(arr).any() else None)
         for k in kinds:
-            if not (np.diff(T[k], axis=1) < 0).all():
-                ev['mono_ok'] = False
-                details['mono_wavelength'] = (k, float(np.diff(T[k], axis=1).max()))
-    else:
+            if not (np.abs(T0[k] - 1) <= L.moment_tol(k)).all():
+                ev['one_ok'] = False
+                details['one'] = (k, float(np.abs(T0[k] - 1).max()))
+        # denser material => strictly smaller transmission; absorbing material => decreasing in wavelength
+        if not (T2 < T[k0]).all():
+            ev['mono_ok'] = False
+            details['mono_density'] = (k0, float((T2 - T[k0]).max()))
+        if P['absorbing']:
+            for k in kinds:
+                for name, arr in (('c', T[k]), ('gc', G[k])):
+                    if not (np.diff(arr, axis=1) < 0).all():
+                        ev['mono_ok'] = False
+                        details['mono_wavelength'] = (k, name, float(np.diff(arr, axis=1).max()))
+        else:
+            for k in kinds:
+                for name, arr in (('c', T[k]), ('gc', G[k])):
+                    if not (np.abs(np.diff(arr, axis=1)) <= 1e-12).all():
+                        ev['mono_ok'] = False
+                        details['const_wavelength'] = (k, name, float(np.abs(np.diff(arr, axis=1)).max()))
+        # invariance, bound derived in the module docstring
+        d = {}
+        for k in ('cheap', 'medium'):
+            d[k] = (np.abs(T[k] - T['expensive']).max(), np.abs(G[k] - G['expensive']).max())
+        d['expensive'] = d['medium']
         for k in kinds:
-            if not (np.abs(np.diff(T[k], axis=1)) <= 1e-12).all():
-                ev['mono_ok'] = False
-                details['const_wavelength'] = (k, float(np.abs(np.diff(T[k], axis=1)).max()))
-    # invariance, bound derived in the module docstring
-    d = {}
-    for k in ('cheap', 'medium'):
-        d[k] = (np.abs(T[k] - T['expensive']).max(), np.abs(G[k] - G['expensive']).max())
-    d['expensive'] = d['medium']
-    for k in kinds:
-        bound = 2 * (d[k][0] + d[k][1] + d['medium'][0] + d['medium'][1]) + 1e-6
-        diff = float(np.abs(T[k] - G[k]).max())
-        if not diff <= bound:
-            ev['inv_ok'] = False
-            details.setdefault('inv', []).append((k, diff, float(bound)))
+            bound = 2 * (d[k][0] + d[k][1] + d['medium'][0] + d['medium'][1]) + 1e-6
+            diff = float(np.abs(T[k] - G[k]).max())
+            if not diff <= bound:
+                ev['inv_ok'] = False
+                details.setdefault('inv', []).append((k, diff, float(bound)))
     info['details'] = details
     info['T_first'] = T[kinds[0]][0].tolist()
     info['G_first'] = G[kinds[0]][0].tolist()
@@ -494,17 +929,54 @@ def _check_oracle_against_tlc(cyl_cases, mom_cases):
             raise MachineryError(f'oracle/TLC moment mismatch {rec}')
 
 
+class _Bg(threading.Thread):
+    """A chain of TLC runs next to the Python work of the driver (tlc.run gives every run its own metadir).
+    The runs are not counted by tlc.run (count=False); the main thread adds them up after join()."""
+
+    def __init__(self, ctx, jobs):
+        super().__init__(daemon=True)
+        self.ctx, self.jobs, self.results, self.error = ctx, jobs, [], None
+
+    def run(self):
+        try:
+            for kw in self.jobs:
+                kw = dict(kw)
+                module, cfg = kw.pop('module'), kw.pop('cfg')
+                self.results.append((kw.get('expect_error', False), self.ctx.tlc(module, cfg, count=False, **kw)))
+        except BaseException as e:  # noqa: BLE001  re-raised by finish()
+            self.error = e
+
+    def finish(self, what):
+        self.join()
+        if self.error is not None:
+            raise self.error
+        for (neg, res), w in zip(self.results, what, strict=True):
+            if neg:
+                continue
+            require_ok(self.ctx, res, w)
+            self.ctx.states += res.generated
+            self.ctx.distinct_states += res.distinct
+            self.ctx.transitions += max(res.generated - 1, 0)
+
+
 def run(ctx):
     ctx.rule = RULE
     ctx.assume('all lengths of one configuration share one length unit (m, cm, mm, um or angstrom); the '
-               'detector positions of the transmission map may use another one')
+               'detector positions of the transmission map may use another one, and the moved copy of a '
+               'transmission set-up is expressed in another unit than the original')
     ctx.assume('grazing rays (inside a cap plane, along the lateral surface) and near-tangent rays '
                '(|1 - d^2/r^2| < 1/64) are not generated: the path length is discontinuous / ill-conditioned there')
     ctx.assume("'integrate exactly' / 'sum to volume' / '<= 1' / '= 1' mean to the precision of the bundled tables: "
                "1e-12 for 'cheap', 1e-6 for 'medium' and 'expensive' (DESIGN §3.4)")
     ctx.assume("the Monte-Carlo kinds ('mc') are not deterministic and outside the property")
-    ctx.extra['tolerances'] = {'beam_intersection': '1e-12*L + 1e-12*size (tangent, inexact arithmetic: 1e-6*size)',
-                               'points_inside': '1e-9*size', 'moments': {'cheap': 1e-12, 'medium': 1e-6, 'expensive': 1e-6},
+    ctx.assume('radius and height given as float32 or int64 are used only where the number is exactly the one '
+               'otherwise given as float64; start points, directions and the axis are float64 vectors')
+    ctx.extra['tolerances'] = {'beam_intersection': '1e-12*L + 1e-12*size (tangent, inexact arithmetic: 1e-6*size; rays '
+                                                    'tilted by theta off the axis / phi off the cap planes in cylinders of '
+                                                    'extreme aspect ratio: (1e-12 + 64 eps (1+|b|/min(r,h)) (1/theta+1/phi))*L)',
+                               'points_inside': '1e-9*size', 'moments': {'cheap': 1e-12, 'medium': 1e-6, 'expensive': 1e-6,
+                                                                      'z^2, z^4 (medium, expensive)': '3 x relative error of the documented line rule at its smallest node count',
+                                                                      'plus': '16 eps max|coordinate| ((a+b)/r + c/(h/2))'},
                                'transmission_invariance': '2*(d_k(c)+d_k(gc)+d_m(c)+d_m(gc)) + 1e-6'}
     tier = 'thorough' if ctx.thorough else 'quick'
     sfx = '_thorough' if ctx.thorough else ''
@@ -515,33 +987,64 @@ def run(ctx):
         ctx.extra.setdefault('timing_s', {})[name] = round(time.time() - t_[0], 1)
         t_[0] = time.time()
 
-    # ---- 1. design: exhaustive model + negative controls
-    res = ctx.tlc('absorption/MC_Cylinder.tla', f'MC_Cylinder_motion{sfx}.cfg', timeout=1500, workers=WORKERS)
-    require_ok(ctx, res, 'Cylinder model (rigid motions)')
-    res = ctx.tlc('absorption/MC_Cylinder.tla', f'MC_Cylinder_rays{sfx}.cfg', timeout=1500, workers=WORKERS)
-    require_ok(ctx, res, 'Cylinder model (rays)')
-    ctx.tlc('absorption/MC_Cylinder.tla', 'Neg_Cylinder_otherend.cfg', expect_error=True, timeout=300, workers=WORKERS)
-    ctx.tlc('absorption/MC_Cylinder.tla', 'Neg_Cylinder_noclip.cfg', expect_error=True, timeout=300, workers=WORKERS)
+    # ---- 1. design: exhaustive model + negative controls, running next to the replay below
+    w2 = max(WORKERS // 2, 1)
+    mod = 'absorption/MC_Cylinder.tla'
+    bg = [_Bg(ctx, [{'module': mod, 'cfg': f'MC_Cylinder_motion{sfx}.cfg', 'timeout': 1500, 'workers': w2},
+                    {'module': mod, 'cfg': 'Neg_Cylinder_otherend.cfg', 'expect_error': True, 'timeout': 300, 'workers': w2}]),
+          _Bg(ctx, [{'module': mod, 'cfg': f'MC_Cylinder_rays{sfx}.cfg', 'timeout': 1500, 'workers': w2},
+                    {'module': mod, 'cfg': 'Neg_Cylinder_noclip.cfg', 'expect_error': True, 'timeout': 300, 'workers': w2}])]
+    for b in bg:
+        b.start()
 
-    mark('tlc_model')
-    # ---- 2. spec -> code: cases enumerated by TLC
+    # ---- 2. spec -> code: cases enumerated by TLC (single-threaded constant evaluation, also in the background)
     files = {k: ctx.tmp / f'c18-{k}.ndjson' for k in ('rays', 'cyls', 'mom')}
-    res = ctx.tlc('absorption/Cases_Cylinder.tla', workers=1, timeout=1500, count=False,
-                  env={'TIER': tier, 'RAYS_FILE': files['rays'], 'CYLS_FILE': files['cyls'], 'MOM_FILE': files['mom']})
-    require_ok(ctx, res, 'Cases_Cylinder')
+    cases_bg = _Bg(ctx, [{'module': 'absorption/Cases_Cylinder.tla', 'cfg': None, 'workers': 1, 'timeout': 1500,
+                          'env': {'TIER': tier, 'RAYS_FILE': files['rays'], 'CYLS_FILE': files['cyls'],
+                                  'MOM_FILE': files['mom']}}])
+    cases_bg.start()
+
+    # ---- 3. code -> spec: recorded executions (first the part that does not need the model cases)
+    events, batches = [], []
+    _ray_events(ctx, events, n_cyl=400 if ctx.thorough else 150, nrays=40, batches=batches)
+    _special_ray_events(ctx, events, n_cyl=300 if ctx.thorough else 100, nrays=12, batches=batches)
+    mark('random_rays')
+    for i in range(500 if ctx.thorough else 120):
+        scale = None
+        if i % 4 == 1:
+            c = _near_pole_cyl(ctx)
+        elif i % 4 == 3:
+            c, scale, _, _ = _extreme_cyl(ctx)
+        else:
+            c = _random_cyl(ctx, small=(i % 3 == 0))
+        for kind in KINDS:
+            if kind == 'expensive' and i % 4:
+                continue
+            u, unit = _pick_scale(ctx.rng, c)
+            if scale is not None:
+                u = scale
+            _quad_event(ctx, c, kind, u, unit, events, sizes=_pick_sizes(ctx.rng, c, u), reuse=(i % 3 == 2))
+    units_dirs = L.unit_vectors(9)
+    for i in range(120 if ctx.thorough else 30):
+        c = _random_cyl(ctx, small=False)
+        if c.r > 20 * c.h or c.h > 20 * c.r:
+            c = L.Cyl(c.R, c.base, min(c.r, 9), min(c.h, 9))
+        q = L.random_quaternion(ctx.rng, 3)
+        tau = tuple(F(ctx.rng.randint(-30, 30), ctx.rng.choice([1, 2, 5])) for _ in range(3))
+        kinds = (KINDS[i % 3],) if not ctx.thorough else KINDS
+        _trans_event(ctx, events, _trans_params(ctx, c, q, tau, 'otherend' if i % 4 == 0 else 'move', kinds, units_dirs))
+    mark('random_quadrature_transmission')
+
+    cases_bg.finish(['Cases_Cylinder'])
     cyl_cases = [json.loads(x) for x in open(files['cyls'])]
     mom_cases = [json.loads(x) for x in open(files['mom'])]
-    mark('tlc_cases')
+    mark('tlc_cases_wait')
     _check_oracle_against_tlc(cyl_cases, mom_cases)
-    n_replayed = _replay_tlc_rays(ctx, files['rays'])
+    keep = []
+    n_replayed = _replay_tlc_rays(ctx, files['rays'], keep)
     ctx.traces(n_replayed)
     mark('replay_rays')
 
-    # ---- 3. code -> spec: recorded executions
-    events = []
-    _ray_events(ctx, events, n_cyl=400 if ctx.thorough else 150, nrays=40)
-
-    mark('random_rays')
     model_cyls = _distinct_cyls(cyl_cases)
     ctx.rng.shuffle(model_cyls)
     n_model = len(model_cyls) if ctx.thorough else 90
@@ -550,17 +1053,7 @@ def run(ctx):
             if kind == 'expensive' and i % (2 if ctx.thorough else 5):
                 continue
             u, unit = _pick_scale(ctx.rng, c, pow2=(i % 3 == 0))
-            _quad_event(ctx, c, kind, u, unit, events)
-    for i in range(500 if ctx.thorough else 120):
-        c = _random_cyl(ctx, small=(i % 3 == 0))
-        for kind in KINDS:
-            if kind == 'expensive' and i % 4:
-                continue
-            u, unit = _pick_scale(ctx.rng, c)
-            _quad_event(ctx, c, kind, u, unit, events)
-
-    mark('quadrature')
-    units_dirs = L.unit_vectors(9)
+            _quad_event(ctx, c, kind, u, unit, events, sizes=_pick_sizes(ctx.rng, c, u), reuse=(i % 3 == 1))
     pairs = list(cyl_cases)
     ctx.rng.shuffle(pairs)
     n_pairs = 160 if ctx.thorough else 36
@@ -568,15 +1061,28 @@ def run(ctx):
         c = L.cyl_from_ints(rec['c'])
         kinds = (KINDS[i % 3],) if not ctx.thorough else KINDS
         mode = 'otherend' if i % 3 == 0 else 'move'
-        _trans_event(ctx, events, c, tuple(rec['q']), L.vec_from_ints(rec['tau']), mode, kinds, units_dirs)
-    for i in range(120 if ctx.thorough else 30):
-        c = _random_cyl(ctx, small=False)
-        if c.r > 20 * c.h or c.h > 20 * c.r:
-            c = L.Cyl(c.R, c.base, min(c.r, 9), min(c.h, 9))
-        q = L.random_quaternion(ctx.rng, 3)
-        tau = tuple(F(ctx.rng.randint(-30, 30), ctx.rng.choice([1, 2, 5])) for _ in range(3))
-        kinds = (KINDS[i % 3],) if not ctx.thorough else KINDS
-        _trans_event(ctx, events, c, q, tau, 'otherend' if i % 4 == 0 else 'move', kinds, units_dirs)
+        _trans_event(ctx, events, _trans_params(ctx, c, tuple(rec['q']), L.vec_from_ints(rec['tau']), mode, kinds, units_dirs))
+    mark('model_quadrature_transmission')
+
+    # ---- 3b. second evaluation (item 6): a sample of all cases again, last ones first, other layouts
+    n_first = len(events)
+    _replay_again(ctx, keep)
+    sample = list(batches)
+    ctx.rng.shuffle(sample)
+    for b in sample[: (80 if ctx.thorough else 24)]:
+        layout = ctx.rng.choice(['1d_reversed', 'dir0d', 'start0d', '2d'] if not b['special'] else ['1d_reversed', 'dir0d'])
+        if not _layout_ok(layout, b['rays']):
+            layout = '1d_reversed'
+        _record_rays(ctx, events, b['c'], b['rays'], b['u'], b['unit'], layout, 'float64', b['special'], None,
+                     b['what'] + ', second evaluation', of=b['lines'])
+    firsts = [(i + 1, e, info) for i, (e, info) in enumerate(events[:n_first])]
+    quads = [x for x in firsts if x[1]['ev'] == 'quad']
+    for line, e, info in reversed(ctx.rng.sample(quads, min(len(quads), 90 if ctx.thorough else 30))):
+        _quad_event(ctx, info['c'], info['qkind'], info['u'], info['unit'], events, sizes=e['sizes'], of=line)
+    trans = [x for x in firsts if x[1]['ev'] == 'trans']
+    for line, e, info in reversed(ctx.rng.sample(trans, min(len(trans), 24 if ctx.thorough else 6))):
+        _trans_event(ctx, events, info['P'], of=line)
+    mark('second_evaluation')
 
     for ev, info in events:
         if ev['ev'] == 'quad' and not ev['raised']:
@@ -588,9 +1094,12 @@ def run(ctx):
         if first:
             ctx.sample({k: (v if k != 'pts' else v[:3]) for k, v in first.items()})
     ctx.extra['events'] = {k: sum(1 for e, _ in events if e['ev'] == k) for k in ('ray', 'quad', 'trans')}
+    ctx.extra['events_second_evaluation'] = len(events) - n_first
     ctx.extra['events_recomputed_by_tlc'] = sum(1 for e, _ in events if e['small'])
+    ctx.extra['event_layouts'] = {lay: sum(1 for e, _ in events if e.get('lay') == lay) for lay in LAYOUTS}
+    ctx.extra['event_size_types'] = {t: sum(1 for e, _ in events if e.get('sizes') == t) for t in ('float64', 'float32', 'int64')}
+    ctx.extra['transmission_moved_copy_in_other_unit'] = sum(1 for e, _ in events if e.get('reunit'))
 
-    mark('transmission')
     tf = ctx.tmp / 'c18.ndjson'
     write_ndjson(tf, [e for e, _ in events])
     tr = ctx.tlc('absorption/Trace_Cylinder.tla', workers=1, env={'TRACE_FILE': str(tf)}, timeout=1500)
@@ -601,11 +1110,24 @@ def run(ctx):
         raise MachineryError(f'trace validation incomplete: {done} vs {len(events)} events')
     ctx.traces(len(events))
     rejected = {line: clause for _, line, _tid, clause in tr.tagged('REJECT')}
-    _trace_control(ctx, events, rejected)
-    for _, line, _tid, clause in tr.tagged('REJECT'):
+    _report_rejects(ctx, events, rejected)
+    _trace_control(ctx, cyl_cases, files['rays'])
+    mark('trace_control')
+    bg[0].finish(['Cylinder model (rigid motions)', 'negative control'])
+    bg[1].finish(['Cylinder model (rays)', 'negative control'])
+    mark('tlc_model_wait')
+
+
+def _report_rejects(ctx, events, rejected):
+    """Every event TLC rejected becomes a violation (before any self-test of the judge runs)."""
+    for line in sorted(rejected):
+        clause = rejected[line]
         ev, info = events[line - 1]
         if clause.startswith('oracle_') or clause == 'unknown_event':
             raise MachineryError(f'oracle and TLA+ specification disagree: {clause} on {ev}')
+        # a second evaluation gets its own key only if the first evaluation of the same case was accepted
+        second = ev['pass'] == 2 and ev['of'] not in rejected
+        sfx = SECOND if second else ''
         c = info['c']
         if ev['ev'] == 'ray':
             text = {'positive_length_for_ray_that_misses': 'positive length for a ray that misses the solid',
@@ -613,7 +1135,8 @@ def run(ctx):
                     'length_differs_from_chord': 'length differs from the exact chord'}.get(clause)
             if clause == 'beam_intersection_raised':
                 continue  # reported when it happened
-            _ray_violation(ctx, text or clause, c, info['s'], info['n'], info['res'], info['r'], info['u'], info['unit'])
+            _ray_violation(ctx, text or clause, c, info['s'], info['n'], info['res'], info['r'], info['u'], info['unit'],
+                           layout=info['layout'], sizes=info['sizes'], special=info['special'], second=second)
         elif ev['ev'] == 'quad':
             if clause == 'points_outside_solid_coarse' and ev['n_out'] == 0:
                 raise MachineryError(f'TLC finds points outside the solid that the harness accepts: {ev["tid"]}')
@@ -624,12 +1147,15 @@ def run(ctx):
                    'weights_do_not_sum_to_volume': f"quadrature('{ev['kind']}'): weights do not sum to the volume",
                    'centroid_is_not_centre': 'quadrature: centroid is not the centre of the solid',
                    'polynomial_moments_wrong': 'quadrature: low-degree polynomial moments differ from those of the solid',
+                   'axial_moments_wrong': f"quadrature('{ev['kind']}'): z^2 / z^4 moments off by more than three times the "
+                                          'error of the documented line rule',
                    }[clause]
-            ctx.violation(f'{key} [{_zc(c)}]',
-                          {'kind': ev['kind'], 'cyl': {'axis': _fl(c.axis), 'base': _fl(c.base), 'r': float(c.r),
-                                                       'h': float(c.h)}, 'unit': info['unit'], 'scale': str(info['u']),
+            ctx.violation(f'{key} [{_zc(c)}]{sfx}',
+                          {'kind': ev['kind'], 'cyl': _cyl_float(c), 'unit': info['unit'], 'scale': str(info['u']),
+                           'sizes': ev['sizes'], 'cylinder_object_used_before': ev['reuse'],
                            'n_points': ev['n'], 'n_outside': ev['n_out'], 'frac_outside': info.get('frac_outside'),
                            'worst_outside_rel_size': info.get('worst_outside'), 'bad_moments': info.get('bad_moments'),
+                           'bad_axial_moments_rel': info.get('bad_axial_moments'),
                            'sum_rel': info.get('sum_rel'), 'clause': clause, 'exc': info.get('exc')})
         else:
             z = 'axis z<0' if (c.axis[2] < 0 or info['gc'].axis[2] < 0) else 'axis z>=0'
@@ -640,57 +1166,98 @@ def run(ctx):
                    'transmission_not_decreasing_with_attenuation': 'transmission does not decrease when attenuation grows',
                    'transmission_changes_under_rigid_motion': f'transmission changes when the setup is {what}',
                    }[clause]
-            ctx.violation(f'{key} [{z}]',
-                          {'cyl': {'axis': _fl(c.axis), 'base': _fl(c.base), 'r': float(c.r), 'h': float(c.h)},
+            ctx.violation(f'{key} [{z}]{sfx}',
+                          {'cyl': _cyl_float(c),
                            'moved': {'axis': _fl(info['gc'].axis), 'base': _fl(info['gc'].base)},
                            'mode': ev['mode'], 'q': ev['q'], 'unit': info['unit'], 'scale': str(info['u']),
+                           'moved_copy_presented_as': info['moved_copy_presented_as'],
+                           'material_units': info['material_units'],
                            'mu_size': info['mu_size'], 'details': info.get('details'), 'exc': info.get('exc'),
                            'T': info.get('T_first'), 'T_moved': info.get('G_first'), 'clause': clause})
 
 
-def _trace_control(ctx, events, rejected):
-    """Vacuity guard of the trace specification: accepted events are corrupted in one field each and TLC
-    must reject every corrupted copy with the expected clause (a removed event is caught by the DONE count)."""
-    import copy
-
-    def pick(pred):
-        return next((copy.deepcopy(e) for i, (e, _) in enumerate(events) if (i + 1) not in rejected and pred(e)), None)
-
-    bad = []
-    e = pick(lambda e: e['ev'] == 'ray' and e['small'] and not e['zero'] and not e['grazing'])
-    if e:
-        bad.append((dict(e, zero=True), 'zero_length_for_ray_that_hits'))
-        bad.append((dict(e, len_ok=False), 'length_differs_from_chord'))
-        bad.append((dict(e, cls='miss_line'), 'oracle_class_mismatch'))
-    e = pick(lambda e: e['ev'] == 'ray' and e['small'] and e['zero'] and not e['grazing'])
-    if e:
-        bad.append((dict(e, zero=False), 'positive_length_for_ray_that_misses'))
-    e = pick(lambda e: e['ev'] == 'quad' and e['small'])
-    if e:
-        far = copy.deepcopy(e)
-        far['pts'][0] = [e['pts'][0][0] + 64 * 4 * (e['c']['r'] + e['c']['h']), e['pts'][0][1], e['pts'][0][2], 64]
-        bad += [(far, 'points_outside_solid_coarse'), (dict(e, n_out=1), 'points_outside_solid'),
-                (dict(e, n_nonpos=1), 'weights_not_positive'), (dict(e, sum_ok=False), 'weights_do_not_sum_to_volume'),
-                (dict(e, n_mom_bad=2), 'polynomial_moments_wrong')]
-    e = pick(lambda e: e['ev'] == 'trans' and e['small'])
-    if e:
-        wrong = copy.deepcopy(e)
-        wrong['gc']['h'] += 1
-        bad += [(dict(e, inv_ok=False), 'transmission_changes_under_rigid_motion'), (dict(e, range_ok=False), 'transmission_outside_0_1'),
-                (wrong, 'oracle_moved_cylinder_mismatch')]
-    if len(bad) < 8:
-        raise MachineryError(f'trace control: only {len(bad)} corrupted events could be built')
-    for i, (b, _) in enumerate(bad):
+def _trace_control(ctx, cyl_cases, rays_path):
+    """Vacuity guard of the trace specification.  Synthetic events are built from the model cases and the
+    oracle alone (nothing the implementation returned enters): TLC must accept each of them, and must reject
+    every copy corrupted in one field with the expected clause (a removed event is caught by the DONE count)."""
+    base = {'lay': '1d', 'sizes': 'float64', 'pass': 1, 'of': 0}
+    good, hit, miss = [], None, None
+    with open(rays_path) as f:
+        for line in f:
+            rec = json.loads(line)
+            if rec['grazing'] or not rec['exact']:
+                continue
+            c = L.cyl_from_ints(rec['c'])
+            s, n = L.vec_from_ints(rec['s']), L.vec_from_ints(rec['n'])
+            if not L.ray_fits32(c, s, n):
+                continue
+            ev = dict(base, ev='ray', small=True, c=rec['c'], s=rec['s'], n=rec['n'], grazing=False, cls=rec['cls'],
+                      raised=False, len_ok=True)
+            if hit is None and rec['cls'] == 'from_inside':
+                hit = dict(ev, zero=False)
+            if miss is None and rec['cls'] == 'miss_line':
+                miss = dict(ev, zero=True)
+            if hit and miss:
+                break
+    rec = next(r for r in cyl_cases if L.quad_fits32(L.cyl_from_ints(r['c']), [[0, 0, 0, 64]]))
+    c = L.cyl_from_ints(rec['c'])
+    centre = [int(round(float(x) * 64)) for x in c.center] + [64]
+    quad = dict(base, ev='quad', kind='cheap', small=True, c=rec['c'], pts=[centre, centre], reuse=False, raised=False,
+                n=2, n_out=0, n_nonpos=0, sum_ok=True, cen_ok=True, n_mom_bad=0, n_axial_bad=0)
+    trans = dict(ev='trans', mode='move', small=True, reunit=True, c=rec['c'], gc=rec['gc'], q=rec['q'], tau=rec['tau'],
+                 raised=False, range_ok=True, one_ok=True, mono_ok=True, inv_ok=True)
+    trans['pass'], trans['of'] = 1, 0
+    if hit is None or miss is None:
+        raise MachineryError('trace control: the model cases contain no usable ray')
+    good = [hit, miss, quad, trans]
+    for i, g in enumerate(good):
+        g['case'] = i
+    cases = [(g, 'ok') for g in good]
+    for i, g in enumerate(good):                       # second evaluations referring to lines 1..4
+        cases.append((dict(g, **{'pass': 2, 'of': i + 1}), 'ok'))
+    cases += [(dict(hit, zero=True), 'zero_length_for_ray_that_hits'),
+              (dict(hit, len_ok=False), 'length_differs_from_chord'),
+              (dict(hit, cls='miss_line'), 'oracle_class_mismatch'),
+              (dict(hit, raised=True), 'beam_intersection_raised'),
+              (dict(hit, lay='3d'), 'oracle_unknown_layout'),
+              (dict(hit, sizes='float16'), 'oracle_unknown_size_type'),
+              (dict(hit, **{'pass': 2, 'of': 2}), 'oracle_replay_is_not_the_same_case'),
+              (dict(hit, **{'pass': 2, 'of': 0}), 'oracle_replay_is_not_the_same_case'),
+              (dict(hit, **{'pass': 1, 'of': 1}), 'oracle_replay_is_not_the_same_case'),
+              (dict(hit, **{'pass': 2, 'of': 1, 'lay': '2d', 'zero': True}), 'zero_length_for_ray_that_hits'),
+              (dict(miss, zero=False), 'positive_length_for_ray_that_misses')]
+    far = copy.deepcopy(quad)
+    far['pts'][0] = [centre[0] + 64 * 4 * (rec['c']['r'] + rec['c']['h']), centre[1], centre[2], 64]
+    cases += [(far, 'points_outside_solid_coarse'), (dict(quad, n_out=1), 'points_outside_solid'),
+              (dict(quad, n_nonpos=1), 'weights_not_positive'), (dict(quad, sum_ok=False), 'weights_do_not_sum_to_volume'),
+              (dict(quad, cen_ok=False), 'centroid_is_not_centre'),
+              (dict(quad, n_mom_bad=2), 'polynomial_moments_wrong'), (dict(quad, raised=True), 'quadrature_raised'),
+              (dict(quad, kind='medium', n_axial_bad=1), 'axial_moments_wrong'),
+              (dict(quad, **{'pass': 2, 'of': 3, 'kind': 'medium'}), 'oracle_replay_is_not_the_same_case')]
+    wrong = copy.deepcopy(trans)
+    wrong['gc']['h'] += 1
+    cases += [(dict(trans, inv_ok=False), 'transmission_changes_under_rigid_motion'),
+              (dict(trans, range_ok=False), 'transmission_outside_0_1'),
+              (dict(trans, one_ok=False), 'transmission_not_1_without_attenuation'),
+              (dict(trans, mono_ok=False), 'transmission_not_decreasing_with_attenuation'),
+              (dict(trans, raised=True), 'transmission_raised'),
+              (wrong, 'oracle_moved_cylinder_mismatch'),
+              (dict(trans, **{'pass': 2, 'of': 4, 'mode': 'otherend'}), 'oracle_replay_is_not_the_same_case')]
+    out = []
+    for i, (b, _) in enumerate(cases):
+        b = dict(b)
         b['tid'] = i
+        out.append(b)
     tf = ctx.tmp / 'c18-control.ndjson'
-    write_ndjson(tf, [b for b, _ in bad])
+    write_ndjson(tf, out)
     tr = ctx.tlc('absorption/Trace_Cylinder.tla', workers=1, env={'TRACE_FILE': str(tf)}, timeout=600, count=False)
     require_ok(ctx, tr, 'Trace_Cylinder (control)')
     got = {line: clause for _, line, _tid, clause in tr.tagged('REJECT')}
-    for i, (_, want) in enumerate(bad):
-        if got.get(i + 1) != want:
-            raise MachineryError(f'trace control: corrupted event {i + 1} expected {want}, TLC said {got.get(i + 1)}')
-    ctx.extra['trace_control'] = f'{len(bad)} corrupted events, all rejected with the expected clause'
+    for i, (_, want) in enumerate(cases):
+        if got.get(i + 1, 'ok') != want:
+            raise MachineryError(f'trace control: event {i + 1} expected {want}, TLC said {got.get(i + 1, "ok")}')
+    ctx.extra['trace_control'] = (f'{len(cases)} synthetic events (independent of the implementation): '
+                                  f'{sum(1 for _, w in cases if w == "ok")} accepted, the corrupted ones rejected with the expected clause')
 
 
 META = {
@@ -708,7 +1275,11 @@ META = {
             'recomputed from the integers of the case, quadrature points inside the solid (coarsely by TLC, to 1e-9 '
             'numerically), positive weights, volume, centroid and the low-degree moments fixed in the design, '
             'transmission in (0,1], 1 without attenuation, monotone, and invariant under rigid motions / other end '
-            'within a bound derived from the differences between the quadrature kinds.',
+            'within a bound derived from the differences between the quadrature kinds. The same cases are presented '
+            'in every operand layout (0-d, lists, broadcast grids, transposed arrays), with radius / height as float64, '
+            'float32 or int64, with aspect ratios up to 1e6 and slightly tilted rays, with axes 1e-9 rad from +/-z, the '
+            'moved copy of a transmission set-up in another unit, and a sample of all cases is evaluated a second time '
+            'at the end of the run.',
     'note': 'Trusted: TLC, scipp, mpmath, numpy for evaluating moments of returned points. Decided numerically only '
             '(finite points, not by TLC): closeness of chord lengths with irrational roots, quadrature moments, '
             'the transmission relations; the transmission integral itself is not computed by the specification, only '
